@@ -65,6 +65,11 @@ pub(crate) fn run() -> Result<(), Error> {
     if changed {
         f.set_changed(ptx.state().env()); // update_stamp might skip this if mtime is identical
         f.set_checksum(csum);
+        // The new checksum is committed now, but the file it describes is only
+        // moved into place when the script has finished.  Until the builder
+        // records that, keep the target dirty, so that a build that dies in
+        // between is not mistaken for a finished one.
+        f.mark_unfinished();
     } else {
         // unchanged
         f.set_checked(ptx.state().env());
